@@ -6,6 +6,8 @@ Open Scope Z_scope.
 
 Definition res3 : list (Z * bool) := [(1, false); (2, false); (3, true)].
 Definition wprio : wcfg := mkW None None None SPriority.
+Definition l_prio_of (xs : xstate) (r : Z) : Z :=
+  match get_lock (fst (fst xs)) r with Some l => l_prio l | None => -1 end.
 
 (* a three-party deadlock: op i holds r i and waits for r (i+1) *)
 Definition hist_ring : list hop :=
@@ -39,6 +41,66 @@ Example ex_preempt_retarget :
   let gs2 := grun current wprio gs [HRelease 3 3] in
   rec_edges (fst gs2) = [] /\ ref_edges gs2 = [] /\ snd gs2 = [].
 Proof. vm_compute. auto 10. Qed.
+
+(* ---- priorities that change during the history ---- *)
+Definition res_pi : list (Z * bool) := [(1, false); (2, true)].
+
+(* O = op1 (priority 4) owns the preemptable r2; H = op2 (3) owns r1 and is BLOCKED on r2;
+   W = op3 (5) is BLOCKED on r1.  check_and_boost raises H and O to 5 along W -> H -> O. *)
+Definition hist_inversion : list xop :=
+  map XHop [HStart 1 4; HStart 2 3; HStart 3 5;
+            HAcquire 1 2; HAcquire 2 1; HAcquire 2 2; HAcquire 3 1].
+Definition xs_inversion : xstate := xrun current wprio (xinit res_pi) hist_inversion.
+
+Example ex_inversion_boost :
+  rec_edges (fst (fst xs_inversion)) = [(2, 1, 2); (3, 2, 1)] /\
+  snd (xstep current wprio xs_inversion XBoost) = [2; 3; 5; 1; 4; 5] /\
+  let xs1 := fst (xstep current wprio xs_inversion XBoost) in
+  snd xs1 = [(2, (3, 5)); (1, (4, 5))] /\
+  prio_of (fst (fst xs1)) 2 = 5 /\ l_prio_of xs1 2 = 4 /\
+  rec_edges (fst (fst xs1)) = [(2, 1, 2); (3, 2, 1)] /\ ref_edges (fst xs1) = ref_edges (fst xs_inversion).
+Proof. vm_compute. auto 10. Qed.
+
+(* H retries r2 with the inherited priority: PREEMPTED (code 3) although it was recorded as a
+   waiter of r2; afterwards only W waits (for H), H waits for nothing, no deadlock is reported
+   and the watchdog kills nobody  (non-vacuity of c15_obtained_not_waiting / c15_no_self_wait) *)
+Example ex_former_waiter_preempts :
+  let xs1 := fst (xstep current wprio xs_inversion XBoost) in
+  In (2, 2) (snd (fst xs1)) /\
+  snd (xstep current wprio xs1 (XHop (HAcquire 2 2))) = [3] /\
+  let xs2 := fst (xstep current wprio xs1 (XHop (HAcquire 2 2))) in
+  owner (fst (fst xs2)) 1 = Some 2 /\ owner (fst (fst xs2)) 2 = Some 2 /\
+  rec_edges (fst (fst xs2)) = [(3, 2, 1)] /\ ref_edges (fst xs2) = [(3, 2, 1)] /\
+  detect_cycle (edges (fst (fst xs2))) = None /\
+  snd (xstep current wprio xs2 (XHop HWatchdog)) = [] /\
+  (* restore_priority gives H its own priority back; the relation does not move *)
+  snd (xstep current wprio xs2 (XRestore 2)) = [1; 3] /\
+  let xs3 := fst (xstep current wprio xs2 (XRestore 2)) in
+  prio_of (fst (fst xs3)) 2 = 3 /\ snd xs3 = [(1, (4, 5))] /\ rec_edges (fst (fst xs3)) = [(3, 2, 1)].
+Proof. vm_compute. auto 20. Qed.
+
+(* the same through a plain assignment, and through allow_preemption switched on later *)
+Example ex_setprio_and_setpreempt :
+  let hs := map XHop [HStart 1 0; HStart 2 1; HAcquire 2 1; HAcquire 1 1] in
+  let xs := xrun current wprio (xinit [(1, true); (2, false)]) hs in
+  rec_edges (fst (fst xs)) = [(1, 2, 1)] /\
+  let xs' := xrun current wprio xs [XSetPrio 1 2; XHop (HAcquire 1 1)] in
+  owner (fst (fst xs')) 1 = Some 1 /\ rec_edges (fst (fst xs')) = [] /\ snd (fst xs') = [] /\
+  let ys := xrun current wprio (xinit [(1, false)]) (map XHop [HStart 1 2; HStart 2 1; HAcquire 2 1; HAcquire 1 1]) in
+  rec_edges (fst (fst ys)) = [(1, 2, 1)] /\
+  let ys' := xrun current wprio ys [XSetPreempt 1 true; XHop (HAcquire 1 1)] in
+  owner (fst (fst ys')) 1 = Some 1 /\ rec_edges (fst (fst ys')) = [].
+Proof. vm_compute. auto 10. Qed.
+
+(* a deadlock whose members were boosted: the victim is chosen by the priorities as they are then *)
+Example ex_victim_after_boost :
+  let hs := map XHop [HStart 1 0; HStart 2 1; HStart 3 7; HAcquire 1 1; HAcquire 2 2; HAcquire 1 2; HAcquire 2 1;
+                      HAcquire 3 1] ++ [XBoost] in
+  let xs := xrun current wprio (xinit [(1, false); (2, false)]) hs in
+  detect_cycle (edges (fst (fst xs))) = Some [1; 2] /\
+  prio_of (fst (fst xs)) 1 = 7 /\ prio_of (fst (fst xs)) 2 = 7 /\
+  snd (xstep current wprio xs (XHop HWatchdog)) = [1; 3].
+Proof. vm_compute. auto. Qed.
 
 (* ------------------------------------------------------------------ *)
 (* before e0df91f a successful acquisition by X dropped the edges of operations
